@@ -268,7 +268,10 @@ class Assembler:
                             pre_byte = None
                         else:
                             pre_byte = REVERSE_PRE_TABLE.get(pair)
-                        if pre_byte is None:
+                        # (BP+m), (BP+n) is what the CPU (and the decoder) assume
+                        # without a PRE byte: the empty cell of the prefix table.
+                        default_pair = (AddressingMode.BP_N, AddressingMode.BP_N)
+                        if pre_byte is None and pair != default_pair:
                             raise AssemblerError(
                                 f"Invalid addressing mode combination for {mnemonic}: "
                                 f"{imem_ops[0].mode.value} and {imem_ops[1].mode.value}"
